@@ -96,3 +96,23 @@ package operators
 //@   ensures isnil(result1) ==> typeof(result0) == tag("*le") && !isnil(payload(result0, "*le").data)
 //@ func newLT props C15
 //@   ensures isnil(result1) ==> typeof(result0) == tag("*lt") && !isnil(payload(result0, "*lt").data)
+
+// ---- build-cache keys (C13): the value class of the keys each constructor hands to the process-wide cache.
+// Classes: re = regexp.Compile(suffix of the key), pm/pmds/pmf = Aho-Corasick matchers, rx = compiled rx bundle,
+// rxb = binary regexp, schema = JSON schema.
+//@ func newPM props C13
+//@   memoize pm
+//@ func newPMFromDataset props C13
+//@   memoize pmds
+//@ func newPMFromFile props C13
+//@   memoize pmf
+//@ func newRESTPath props C13
+//@   memoize re
+//@ func newRX props C13
+//@   memoize rx
+//@ func newBinaryRX props C13
+//@   memoize rxb
+//@ func newValidateNID props C13
+//@   memoize re
+//@ func NewValidateSchema props C13
+//@   memoize schema
